@@ -10,6 +10,7 @@ from ..cfg import cfg_of
 from ..facts import (catalogue, emission_sites, live_function_keys, registry_model,
                      trivially_dead, value_set)
 from ..model import AnalysisError, Undecided, text, walk_fn
+from ..fold import Unknown, fold_name
 
 # Frozen on the pinned tree and confirmed by reading (DESIGN.md §4.2): for each
 # emitter unit the codes it is responsible for.  The unit is part of the
@@ -250,7 +251,13 @@ def run_rules_dispatch(prog, rr):
                 _seen.append((dep, args[0] if args else kw.get(params[1]), _ctx.tkn_scope,
                               _ctx.history[-1] if _ctx.history else None))
                 return (False, 0)
-            ev = Evaluator(methods, natives={("Registry", "run_rules"): recorder})
+            def lookup(name, _mod=rr.mod):
+                # module-level constants of registry.py (a limit, a tuple of names hoisted out of the method)
+                try:
+                    return ast.parse(repr(fold_name(name, _mod)), mode="eval").body
+                except (Unknown, SyntaxError, ValueError, RecursionError):
+                    return None
+            ev = Evaluator(methods, natives={("Registry", "run_rules"): recorder}, lookup=lookup)
             deps = collections.defaultdict(list)
             deps["R"] = list(named)
             deps["_rule"] = list(every)
